@@ -101,3 +101,19 @@ Example C19_premises_satisfiable :
 Proof.
   split; [exact db_wf_example|]. split; [apply history_example|exact same_prefixes_example].
 Qed.
+
+(** The assumption "no eviction in the middle of one storeInCache" is needed:
+    dropping the freshly stored positive entry before the negative phase makes
+    the next check answer "clean" from the cache for a name in the database. *)
+Theorem C19_midstore_eviction_refuted :
+  let hs := [Examples.sha Examples.evil] in
+  let c := store_negative 3650 hs
+             (cdel (prefix_of (Examples.sha Examples.evil)) (store_positive 3650 hs [])) in
+  answer_ok Examples.db (map prefix_of hs) hs /\
+  o_blocked (snd (check Examples.sha Examples.pubsuf Examples.sfx Examples.ct
+                    (db_service Examples.db) 0 Examples.evil c)) = false /\
+  o_question (snd (check Examples.sha Examples.pubsuf Examples.sfx Examples.ct
+                    (db_service Examples.db) 0 Examples.evil c)) = None /\
+  db_verdict Examples.sha Examples.pubsuf Examples.db Examples.evil = true.
+Proof. exact midstore_eviction_poisons. Qed.
+Print Assumptions C19_midstore_eviction_refuted.
